@@ -697,7 +697,7 @@ static void
 try_lower (OrcCompiler *compiler, int *indexes, int i)
 {
   if (can_lower (compiler, indexes, i)) {
-    do_swap (indexes, i-1, i);
+    do_swap (indexes, i, i+1);
     try_lower (compiler, indexes, i+1);
   }
 }
